@@ -313,6 +313,9 @@ const FLOAT_OPS: &[(&str, usize)] = &[
     ("shl", 2), ("shr", 2), ("shl_assign", 2), ("ulp", 1), ("neg", 1), ("abs", 1), ("cmp", 2), ("eq", 2), ("sign", 1),
     ("with_precision", 2), ("clone", 1), ("to_f32", 1), ("to_f64", 1), ("convert_base", 1), ("to_string", 1), ("debug", 1),
     ("into_ibig", 1),
+    // the other call forms of the binary operators (each is a separate hand-written impl with its own precondition check)
+    ("add.vv", 2), ("add.vr", 2), ("add.rv", 2), ("add.assign", 2), ("sub.vv", 2), ("sub.vr", 2), ("sub.rv", 2), ("sub.assign", 2),
+    ("mul.vv", 2), ("mul.vr", 2), ("mul.rv", 2), ("mul.assign", 2), ("div.vv", 2), ("div.vr", 2), ("div.rv", 2), ("div.assign", 2),
 ];
 const RAT_OPS: &[(&str, usize)] = &[
     ("R.from_parts", 2), ("R.from_parts_signed", 2), ("X.from_parts", 2), ("R.add", 2), ("R.sub", 2), ("R.mul", 2),
@@ -609,6 +612,22 @@ fn exec_float<R: Round, const B: Word>(name: &str, a: &[Value]) -> Option<Out> {
         "mul" => ok(&x * &y()),
         "div" => ok(&x / &y()),
         "rem" => ok(&x % &y()),
+        "add.vv" => ok(x + y()),
+        "add.vr" => ok(x + &y()),
+        "add.rv" => ok(&x + y()),
+        "add.assign" => { let mut z = x; z += y(); ok(z) }
+        "sub.vv" => ok(x - y()),
+        "sub.vr" => ok(x - &y()),
+        "sub.rv" => ok(&x - y()),
+        "sub.assign" => { let mut z = x; z -= y(); ok(z) }
+        "mul.vv" => ok(x * y()),
+        "mul.vr" => ok(x * &y()),
+        "mul.rv" => ok(&x * y()),
+        "mul.assign" => { let mut z = x; z *= y(); ok(z) }
+        "div.vv" => ok(x / y()),
+        "div.vr" => ok(x / &y()),
+        "div.rv" => ok(&x / y()),
+        "div.assign" => { let mut z = x; z /= y(); ok(z) }
         "div_euclid" => ok(x.div_euclid(y())),
         "rem_euclid" => ok(x.rem_euclid(y())),
         "div_rem_euclid" => ok(x.div_rem_euclid(y())),
